@@ -97,6 +97,8 @@ class Gen:
         self.ng = 0
         self.closed = []
         self.open = []
+        # numbered and named references cannot be mixed: a pattern is either all-named or all-numbered
+        self.named = "names" in profile["feats"] and rng.random() < 0.5
 
     def lit(self):
         r = self.r
@@ -125,12 +127,17 @@ class Gen:
         if x < 0.96 and "bref" in f:
             t = self.targets()
             if t:
-                return {"k": "bref", "n": r.choice(t)}
+                return self.ref({"k": "bref", "n": r.choice(t)})
         if "bex" in f:
             t = self.targets()
             if t:
-                return {"k": "bex", "n": r.choice(t)}
+                return self.ref({"k": "bex", "n": r.choice(t)})
         return self.lit()
+
+    def ref(self, e):
+        if self.named:
+            e["named"] = True
+        return e
 
     def targets(self):
         if self.p.get("unrestricted"):
@@ -174,7 +181,7 @@ class Gen:
             self.open.pop()
             self.closed.append(n)
             e = {"k": "grp", "n": n, "x": c}
-            if "names" in f and r.random() < 0.4:
+            if self.named:
                 e["named"] = True
             return e
         if x < 0.80 and "look" in f:
@@ -193,7 +200,7 @@ class Gen:
         if x < 1.0 and "cond" in f:
             t = self.targets()
             if t and r.random() < 0.5:
-                c = {"k": "bex", "n": r.choice(t)}
+                c = self.ref({"k": "bex", "n": r.choice(t)})
             else:
                 c = self.gen(d - 1)
             y = self.gen(d - 1)
